@@ -31,7 +31,8 @@
               (hash-then-verify of crypto/rsa as one function; ECDSA/SM2 verification is
                "not implemented" in the Go code and is an error in the model too)
      hash   : alg -> bytes -> bytes     (crypto hash.Hash: Write*, Sum)
-     sign   : privkey -> scheme -> hash alg -> message -> sigdata  (the signer)
+     sign_rsa, sign_ec : privkey -> scheme -> hash alg -> message -> signature bytes / (r, s)
+              (the crypto.Signer; the hash is the one recorded in the structure)
    Not modelled: the manifest (de)serialisers (C15), pretty printing, PrintBPMPubKey /
    PrintKMPubKey, FillSignature/NewSignatureByData, the PSP/BIOS directory walk of
    psb.GetKeys / ValidateRTM / ValidatePSPEntries (directory structures are C17),
@@ -355,7 +356,8 @@ Section Oracles.
 
 Variable verify : pubkey -> Z -> Z -> bytes -> bytes -> bool.
 Variable hash : Z -> bytes -> bytes.
-Variable sign : privkey -> Z -> Z -> bytes -> sigdata.
+Variable sign_rsa : privkey -> Z -> Z -> bytes -> bytes.       (* crypto.Signer.Sign, RSA schemes *)
+Variable sign_ec : privkey -> Z -> Z -> bytes -> Z * Z.        (* ECDSA / SM2: (r, s) *)
 
 (* the Verify methods of the four signature types (cbnt) *)
 Definition sig_verify (sd : sigdata) (pk : pubkey) (ha : Z) (data : bytes) : outcome unit :=
@@ -421,16 +423,32 @@ Definition detect_scheme (sa : Z) (sk : privkey) : Z :=
   | PrivSM2 _ _ _ => c16_alg_sm2
   end.
 
+Definition rsa_hash_ok (h : Z) : bool := (h =? c16_alg_sha256) || (h =? c16_alg_sha384).
+
 Definition new_signature_data (sa ha : Z) (sk : privkey) (data : bytes) : outcome sigdata :=
   let sc := detect_scheme sa sk in
   if sc =? c16_alg_rsapss then
-    match sk with PrivRSA _ _ _ => Ok (sign sk sc (default_hash c16_alg_sha384 ha) data) | _ => Err E_SIGNALG end
+    (* no check of the key type: whatever crypto.Signer is given signs the digest *)
+    let h := default_hash c16_alg_sha384 ha in
+    if rsa_hash_ok h then Ok (SigPSS (sign_rsa sk sc h data)) else Err E_SIGNALG
   else if sc =? c16_alg_rsassa then
-    match sk with PrivRSA _ _ _ => Ok (sign sk sc (default_hash c16_alg_sha256 ha) data) | _ => Err E_SIGNALG end
+    let h := default_hash c16_alg_sha256 ha in
+    if rsa_hash_ok h then Ok (SigSSA (sign_rsa sk sc h data)) else Err E_SIGNALG
   else if sc =? c16_alg_ecdsa then
-    match sk with PrivECC _ _ _ => Ok (sign sk sc (default_hash c16_alg_sha512 ha) data) | _ => Err E_SIGNALG end
+    match sk with
+    | PrivECC _ _ _ =>
+      let h := default_hash c16_alg_sha512 ha in
+      match cbnt_hash_size h with
+      | Some _ => let rs := sign_ec sk sc h data in Ok (SigECDSA (fst rs) (snd rs))
+      | None => Err E_SIGNALG
+      end
+    | _ => Err E_SIGNALG
+    end
   else if sc =? c16_alg_sm2 then
-    match sk with PrivSM2 _ _ _ => Ok (sign sk sc (default_hash c16_alg_sm3 ha) data) | _ => Err E_SIGNALG end
+    match sk with
+    | PrivSM2 _ _ _ => let rs := sign_ec sk sc (default_hash c16_alg_sm3 ha) data in Ok (SigSM2 (fst rs) (snd rs))
+    | _ => Err E_SIGNALG
+    end
   else Err E_SIGNALG.
 
 (* cbnt KeySignature.SetSignature *)
